@@ -112,6 +112,8 @@ class Unit:
         self.items = []          # dicts: key, mode, file, lines, sha, props, rewrites
         self.rewrites = {"R1": 0, "R2": 0, "R3": 0}
         self.assumed = []
+        self.skipped = {}        # item key -> [anchors that no longer exist in the repo text]
+        self.skipped_harmless = {}   # ... of which: annotations of loops that no longer exist
 
     def add(self, text, origin, file=None, line=0, item=None):
         if text:
@@ -186,7 +188,25 @@ def emit_item(unit, store, relfile, path, mode):
         for order, (anchor, text, sline) in enumerate(ov.inserts):
             if mode == "contract" and anchor != "spec":
                 continue
-            pos = rsx.anchor_pos(item, anchor)
+            try:
+                pos = rsx.anchor_pos(item, anchor)
+            except ExtractError:
+                # Lenient anchors: an annotation whose anchor no longer exists (a loop that was removed, a
+                # statement that was rewritten) is left out and the body is verified without it.  If the
+                # body still verifies, that is a proof; if it does not, the failure is NOT trusted
+                # (verus_run reports UNDECIDED for that function).  The contract (`spec`) is never skipped.
+                if anchor == "spec":
+                    raise
+                # an annotation for a loop that no longer exists (or the label naming its iterator) has
+                # nothing left to annotate: leaving it out does not weaken the proof of the remaining body
+                harmless = False
+                m = re.match(r"loop\s+(\d+)", anchor)
+                if m and int(m.group(1)) >= len(rsx._loops(item)):
+                    harmless = True
+                if anchor.startswith("pre ") and re.match(r"^\s*\w+:\s*$", text):
+                    harmless = True
+                (unit.skipped_harmless if harmless else unit.skipped).setdefault(key, []).append(anchor)
+                continue
             ins.append((pos, order, anchor, text, sline))
     if mode == "body":
         r7 = rsx.r7_closure_patterns(item)
